@@ -76,9 +76,13 @@ func podSpecYAML(ind string, ports []CPort) string {
 
 func workloadDocs(w *Workload) []Doc {
 	lab := mapYAML(w.Labels)
-	meta := fmt.Sprintf("metadata: {name: %s, namespace: %s}\n", q(w.Name), q(w.Ns))
+	objLab := ""
+	if len(w.ObjLabels) > 0 {
+		objLab = ", labels: " + mapYAML(w.ObjLabels)
+	}
+	meta := fmt.Sprintf("metadata: {name: %s, namespace: %s%s}\n", q(w.Name), q(w.Ns), objLab)
 	if w.OmitNs {
-		meta = fmt.Sprintf("metadata: {name: %s}\n", q(w.Name))
+		meta = fmt.Sprintf("metadata: {name: %s%s}\n", q(w.Name), objLab)
 	}
 	rep := ""
 	if w.Replicas != nil {
@@ -104,7 +108,11 @@ func workloadDocs(w *Workload) []Doc {
 		}
 		return mk("apiVersion: batch/v1\nkind: Job\n" + meta + "spec:\n" + par + tmpl("  "))
 	case KCronJob:
-		return mk("apiVersion: batch/v1\nkind: CronJob\n" + meta + "spec:\n  schedule: \"* * * * *\"\n  jobTemplate:\n    spec:\n" + tmpl("      "))
+		jtMeta := ""
+		if len(w.ObjLabels) > 0 { // labels of the Jobs the CronJob creates - not of their pods
+			jtMeta = "    metadata: {labels: " + mapYAML(w.ObjLabels) + "}\n"
+		}
+		return mk("apiVersion: batch/v1\nkind: CronJob\n" + meta + "spec:\n  schedule: \"* * * * *\"\n  jobTemplate:\n" + jtMeta + "    spec:\n" + tmpl("      "))
 	case KRC:
 		return mk("apiVersion: v1\nkind: ReplicationController\n" + meta + "spec:\n" + rep + "  selector: " + lab + "\n" + tmpl("  "))
 	case KPod:
@@ -217,6 +225,13 @@ func NetPolYAML(n *NetPol) string {
 	}
 	for di, rules := range [][]NPRule{n.Ingress, n.Egress} {
 		if len(rules) == 0 {
+			dk := []string{"ingress", "egress"}[di]
+			switch n.EmptySpelling {
+			case "list":
+				s += "  " + dk + ": []\n"
+			case "null":
+				s += "  " + dk + ": null\n"
+			}
 			continue
 		}
 		key := "from"
